@@ -131,10 +131,11 @@ def jobs(tier, seed, excluded=()):
                 o += [0, 0, r.randint(*t), r.randint(*vt), r.randint(0, 3), r.randint(0, 5), bool(r.randint(0, 1))]
             return o
 
-        def add(tag, V, kinds, spec, budget=3):
+        def add(tag, V, kinds, spec, budget=3, free_picks=False):
             pr = " and ".join(pre(j, *sp) for j, sp in enumerate(spec))
             ps = [p for j in range(len(spec)) for p in req_params(j)]
-            out.extend(state_jobs("C14", "vk.props.c14", "sync", [tid], dom, budget, 1, tmo, rng, {"names": names, "nreq": len(spec), "kinds": kinds, "version": V, "skip": skip}, tag="v%d-%s" % (V, tag), extra_params=ps, extra_pre=pr, extra_samples=lambda r, spec=spec: smp(r, spec)))
+            mf = (lambda t_, sl_: [x.name for x in sl_ if x.kind == "pick"]) if free_picks else None
+            out.extend(state_jobs("C14", "vk.props.c14", "sync", [tid], dom, budget, 1, tmo, rng, {"names": names, "nreq": len(spec), "kinds": kinds, "version": V, "skip": skip}, tag="v%d-%s" % (V, tag), extra_params=ps, extra_pre=pr, extra_samples=lambda r, spec=spec: smp(r, spec), must_free=mf))
 
         tall = (0, nn - 1)
         for V in (3, 2, 1):
@@ -153,6 +154,9 @@ def jobs(tier, seed, excluded=()):
                 add("set-reset", V, [0, 1], [((0, 2), (0, 1)), ((0, min(5, nn - 1)), (0, 0))], 2)
                 add("set-set", V, [0, 0], [((0, 1), (0, 1)), ((1, 2), (0, 1))], 2)
                 add("set-load", V, [0, 6], [((0, 2), (0, 1)), ((0, 0), (0, 0))], 2)
+                if any(sl.kind == "pick" for sl in ST.layout(tid)):
+                    # set a choice member, then load a file (the user's pick is a symbolic part of the initial state)
+                    add("setmember-load", V, [0, 6], [((2, min(4, nn - 1)), (0, 0)), ((0, 0), (0, 0))], 1, free_picks=True)
         if tier == "thorough":
             add("three", 3, [0, 1, 0], [((0, 2), (0, 1)), ((0, 3), (0, 0)), ((0, 2), (0, 1))], 2)
     return out
